@@ -26,8 +26,9 @@ LEVEL_NOTE = ('Trusted: Coq kernel, extraction, harness; scipy.ndimage.map_coord
               '(interpolating at nodes; order 0 = nearest neighbour, ties up, cval outside [0, n-1]; bilinear post-mask). '
               'Conservation of sum|amplitude|^2 and of the propagated image is NOT proved: numeric tests on smooth planes '
               '(thresholds 1e-3 / 1e-2 as named in the property, measured margin >= 6). "Original untouched" is observed by the '
-              'tie (snapshots, shares_memory), not proved. Known findings: planes with an integer/bool mask or amplitude array '
-              '(every plane returned by rescale) cannot be rescaled (ValueError); a scalar amplitude is not divided by the scale.')
+              'tie (snapshots of arrays, pixel scale, tilt list and Wavefront*plane before the call, after it, and after the '
+              'returned plane has been mutated; shares_memory), not proved. Integer/bool arrays behave like their float casts and a '
+              'scalar amplitude is divided by the scale (findings C17-integer-mask, C17-scalar-amplitude, fixed in b3500d9, bd5263a).')
 TRUSTED = ['Coq 8.16.1 kernel (coqc; coqchk in the thorough tier)',
            'extraction with ExtrOcamlBasic only; ocaml/driver.ml',
            'harness/props/c17.py: case builder, codec, comparator, oracle',
@@ -329,14 +330,10 @@ def scalar_mask(c):
     return c['mask'] == 'scalar' or (c['mask'] == 'none' and c['amp'] == 'scalar')
 
 
-def int_dtype(c):
-    return c['amp'] == 'int' or c['mask'] in ('intdisk', 'booldisk')
-
-
 def nontrivial(c):
     s = the_scale(c)
     return (expect_refusal(c) is None and s is not None and s != 1 and c['amp'] in ('smooth', 'aperture')
-            and not scalar_mask(c) and not int_dtype(c))
+            and not scalar_mask(c))
 
 
 # ------------------------------------------------------------------ model side
@@ -433,9 +430,56 @@ def mk_plane(c):
     return lentil.Plane(amplitude=amp, opd=opd, mask=mask, pixelscale=ps)
 
 
+def fields_of(p):
+    """what the plane does to a wavefront (Wavefront * plane): data, offset and tilt bookkeeping of every field"""
+    lentil = C.import_lentil()
+    try:
+        w = lentil.Wavefront(650e-9) * p
+        return [(np.array(f.data), tuple(int(o) for o in f.offset), len(f.tilt)) for f in w.data]
+    except Exception as e:      # noqa: BLE001
+        return type(e).__name__
+
+
 def snapshot(p):
     return (np.array(p.amplitude, copy=True), np.array(p.opd, copy=True), np.array(p.mask, copy=True),
-            None if p.pixelscale is None else tuple(float(x) for x in p.pixelscale))
+            None if p.pixelscale is None else tuple(float(x) for x in p.pixelscale),
+            [id(t) for t in p.tilt], fields_of(p))
+
+
+def snapshot_diff(a, b):
+    """None if the two snapshots agree, else the name of the first attribute that differs"""
+    for name, x, y in zip(('amplitude', 'opd', 'mask'), a[:3], b[:3]):
+        if not (np.array_equal(x, y) and x.dtype == y.dtype):
+            return name
+    if a[3] != b[3]:
+        return 'pixelscale'
+    if a[4] != b[4]:
+        return f'tilt list ({len(a[4])} -> {len(b[4])} entries)'
+    fa, fb = a[5], b[5]
+    if isinstance(fa, str) or isinstance(fb, str):
+        return None if fa == fb else 'Wavefront * plane'
+    if len(fa) != len(fb) or any(not np.array_equal(x[0], y[0]) or x[1:] != y[1:] for x, y in zip(fa, fb)):
+        return 'Wavefront * plane (field data / offset / tilt)'
+    return None
+
+
+def same_snapshot(a, b):
+    return snapshot_diff(a, b) is None
+
+
+def use_result(q):
+    """what a caller may legitimately do with the plane it got back; none of it may reach the original"""
+    lentil = C.import_lentil()
+    try:
+        q.fit_tilt(inplace=True)            # moves the fitted tilt of the OPD into q.tilt, rewrites q.opd
+    except Exception:                       # noqa: BLE001 - planes without enough information are left alone
+        pass
+    q.tilt.append(lentil.Tilt(x=1e-6, y=-2e-6))
+    for a in (q.amplitude, q.opd, q.mask):
+        try:
+            np.asarray(a)[...] = 3          # in-place write (works on 0-d arrays too)
+        except (ValueError, TypeError):
+            pass
 
 
 def run_impl(c):
@@ -453,19 +497,21 @@ def run_impl(c):
         except Exception as e:      # noqa: BLE001 - the exception class is the observable
             after = snapshot(p)
             return {'err': type(e).__name__, 'untouched': same_snapshot(before, after)}
-    after = snapshot(p)
-    shares = any(np.shares_memory(np.asarray(x), np.asarray(y))
-                 for x in (q.amplitude, q.opd, q.mask) for y in (p.amplitude, p.opd, p.mask)
-                 if np.asarray(x).ndim and np.asarray(y).ndim)
-    return {'amp': Arr(q.amplitude), 'opd': Arr(q.opd), 'mask': Arr(q.mask),
-            'mask_dtype': str(np.asarray(q.mask).dtype),
-            'ps': None if q.pixelscale is None else [float(q.pixelscale[0]), float(q.pixelscale[1])],
-            'untouched': same_snapshot(before, after), 'shares_memory': bool(shares),
-            'in_amp': Arr(before[0]), 'in_opd': Arr(before[1]), 'in_mask': Arr(before[2])}
-
-
-def same_snapshot(a, b):
-    return all(np.array_equal(x, y) and x.dtype == y.dtype for x, y in zip(a[:3], b[:3])) and a[3] == b[3]
+        after = snapshot(p)
+        shares = any(np.shares_memory(np.asarray(x), np.asarray(y))
+                     for x in (q.amplitude, q.opd, q.mask) for y in (p.amplitude, p.opd, p.mask)
+                     if np.asarray(x).ndim and np.asarray(y).ndim)
+        res = {'amp': Arr(q.amplitude), 'opd': Arr(q.opd), 'mask': Arr(q.mask),
+               'mask_dtype': str(np.asarray(q.mask).dtype),
+               'ps': None if q.pixelscale is None else [float(q.pixelscale[0]), float(q.pixelscale[1])],
+               'untouched': same_snapshot(before, after), 'shares_memory': bool(shares),
+               'in_amp': Arr(before[0]), 'in_opd': Arr(before[1]), 'in_mask': Arr(before[2])}
+        # second step: use the returned plane, then look at the original again
+        use_result(q)
+        leak = snapshot_diff(before, snapshot(p))
+    res['untouched_after_use'] = leak is None
+    res['leak'] = leak or ''
+    return res
 
 
 # ------------------------------------------------------------------ comparison with the model
@@ -497,8 +543,6 @@ def cmp_arr(name, impl_a, model_a, scale, mask_mode=None):
 
 def compare(c, impl, model):
     if 'err' in model or 'err' in impl:
-        if model.get('err') == 'ValueError' and 'err' not in impl and int_dtype(c):
-            return None     # the model documents finding C17-integer-mask; a repaired implementation is judged by the oracle
         if impl.get('err') != model.get('err'):
             return f"implementation {impl.get('err', 'returned a plane')}, model {model.get('err', 'returns a plane')}"
         return None
@@ -516,11 +560,8 @@ def compare(c, impl, model):
         kind, val = model[name]
         a = impl[name].a
         if kind == 'scalar':
-            # the model keeps a scalar as it is (finding C17-scalar-amplitude); a repaired amplitude/s is left to the oracle
-            ok = a.ndim == 0 and (Fraction(float(a)) == val or
-                                  (name == 'amp' and abs(float(a) - float(val / s)) <= 1e-12 * abs(float(val / s))))
-            if not ok:
-                return f'{name}: {a!r} but the model keeps the scalar {val}'
+            if a.ndim != 0 or not close_ps(float(a), val):      # amplitude: v/s, opd: v
+                return f'{name}: {a!r} but the model gives the scalar {val} = {float(val)!r}'
         else:
             if a.ndim != 2:
                 return f'{name}: ndim {a.ndim}, model 2'
@@ -617,11 +658,14 @@ def oracle(c, impl):
     n, m = c['n'], c['m']
     amp, opd, mask = build(c)
     if 'err' in impl:
-        if impl['err'] == 'IndexError' and not int_dtype(c) and vanishing_segment(c, s):
+        if impl['err'] == 'IndexError' and vanishing_segment(c, s):
             return None if impl['untouched'] else 'the refused call modified the plane'
         return f"{c['op']} raised {impl['err']} on a valid plane"
     if not impl['untouched']:
         return 'the original plane was modified'
+    if not impl['untouched_after_use']:
+        return ('the original plane changed when the RETURNED plane was used (fit_tilt(inplace=True), tilt.append, in-place '
+                'array writes): the result shares mutable state (tilt list / 0-d arrays) with the original: ' + impl['leak'])
     if impl['shares_memory']:
         return 'the returned plane shares memory with the original'
     N, M = math.ceil(n * s), math.ceil(m * s)
@@ -710,39 +754,6 @@ def oracle(c, impl):
         if np.ndim(amp) == 2 and not np.allclose(impl['amp'].a, amp, rtol=0, atol=TOL * np.max(np.abs(amp))):
             return 'rescale(1) is not the identity on the amplitude'
     return None
-
-
-def known_match(f, c, impl):
-    if c.get('test'):
-        return False
-    if f['id'] == 'C17-integer-mask':
-        return int_dtype(c) and expect_refusal(c) is None and impl.get('err') == 'ValueError'
-    if f['id'] == 'C17-scalar-amplitude':
-        s = the_scale(c)
-        return (c['amp'] == 'scalar' and not scalar_mask(c) and not int_dtype(c) and 'err' not in impl
-                and s is not None and s != 1 and impl['amp'].a.ndim == 0 and float(impl['amp'].a) == 1.0)
-    return False
-
-
-def replay_known(f):
-    if f['id'] == 'C17-integer-mask':
-        lentil = C.import_lentil()
-        p = lentil.Plane(amplitude=np.ones((8, 8)), pixelscale=1.0)
-        try:
-            p.rescale(2).rescale(0.5)
-        except ValueError:
-            return True
-        return False
-    if f['id'] == 'C17-scalar-amplitude':
-        lentil = C.import_lentil()
-        m = np.zeros((16, 16))
-        m[4:12, 4:12] = 1
-        p = lentil.Plane(amplitude=1.0, mask=m, pixelscale=1.0)
-        q = p.rescale(2)
-        before = float(np.sum(np.abs(p.amplitude * p.mask) ** 2))
-        after = float(np.sum(np.abs(q.amplitude * q.mask) ** 2))
-        return after > 3.9 * before
-    return False
 
 
 # ------------------------------------------------------------------ numeric tests (labelled as tests)
